@@ -256,6 +256,11 @@ def generate(rng, tier):
         for elt in ['rat', 'rat', 'rat', 'rat', 'f64', 'cplx'] * rep:
             t = rtri(g, elt, n, pzero=3)
             cases.append(mk(elt, "solve", {"t": t, "r": [val(g, elt) for _ in range(n)]}, "solve-random-" + elt, n >= 2))
+        for _ in range(rep):           # f64 dominant systems at extreme (power-of-two) scales of the matrix and of the right-hand side
+            sub, main, sup = dominant(g, 'f64', n)
+            sc, sr = 2.0 ** g.range(-400, 400), 2.0 ** g.range(-100, 100)
+            t = ([x * sc for x in sub], [x * sc for x in main], [x * sc for x in sup])
+            cases.append(mk('f64', "solve", {"t": t, "r": [val(g, 'f64') * sr for _ in range(n)], "dominant": True}, "solve-dominant-f64-scaled", n >= 2))
         for _ in range(3 * rep):       # non-dominant exact systems that mostly do get solved (non-zero diagonal, few zero off-diagonals)
             sub, main, sup = rtri(g, 'rat', n, pzero=1)
             main = [val(g, 'rat', nz=True) for _ in range(n)]
